@@ -62,7 +62,9 @@ Fixpoint node_value (fuel : nat) (s : state) (n : nid) : option val :=
     | None => None
     | Some x =>
       match node_kind x with
-      | Some (KMapRef p c) => proj_sem p <$> node_value f s c
+      | Some (KMapRef p c) =>
+          (* the input of a map_ref is an older node *)
+          if bool_decide (c < n)%nat then proj_sem p <$> node_value f s c else None
       | _ => n_value x
       end
     end
